@@ -42,8 +42,8 @@ AtomsT   == {C("Object"), C("Uri"), C("Text"), V(1), V(2), V(3)}
 UniOne   == AtomsT \cup {P(a) : a \in AtomsT} \cup {F(<<a>>, r) : a, r \in AtomsT}
                    \cup {F(<<a, b>>, r) : a, b, r \in AtomsT}
                    \cup {P(P(a)) : a \in AtomsT} \cup {P(F(<<a>>, r)) : a, r \in {V(1), V(2), C("Object")}}
-UniThree == {C("Object"), C("Text"), V(1), V(2), V(3), P(V(1)), P(V(2)), P(C("Object")),
-             F(<<V(1)>>, V(2)), F(<<V(2)>>, V(3)), F(<<V(3), V(1)>>, C("Object")), F(<<P(V(3))>>, V(1))}
+UniThree == {C("Object"), C("Text"), V(1), V(2), V(3), P(V(1)), P(V(2)),
+             F(<<V(1)>>, V(2)), F(<<V(2)>>, V(3)), F(<<P(V(3))>>, V(1))}
 
 \* ---- helpers ---------------------------------------------------------------
 IndexOf(s, x) == IF \E i \in 1..Len(s) : s[i] = x THEN CHOOSE i \in 1..Len(s) : s[i] = x ELSE 0
@@ -108,7 +108,7 @@ Eq == Universe \X Universe
 Systems == UNION {[1..n -> Eq] : n \in 1..MaxEqs}
 
 Init ==
-  /\ eqs \in Systems
+  /\ \E n \in 1..MaxEqs : eqs \in [1..n -> Eq]
   /\ pos = 1 /\ work = <<>> /\ tags = <<>> /\ parent = <<>> /\ status = "run"
 
 NextEquation ==
